@@ -208,3 +208,74 @@ func distName(d, capN int) string {
 	}
 	return fmt.Sprint(d)
 }
+
+// rekeyed: the same main address carries different BLS keys at different look-back heights (the
+// staking module lets a validator withdraw completely and be created again under the same main key
+// with another BLS key).  Three headers verified one after the other by the same Server:
+//  1. the old set, everybody votes (accepted; whatever the verifier keeps about the members is from here)
+//  2. the new set (member D re-registered with a new BLS key), D's share still made by the OLD key:
+//     D's vote is bound to this block only by that share, the registered key did not sign -> D counts
+//     for nothing, the aggregate does not verify
+//  3. the new set, D's share made by the NEW key (honest; must be accepted)
+func (g *gen) rekeyed(res *vf.Result) []Case {
+	r := g.r
+	var a Case
+	g.plain, g.plainAll = true, true
+	for try := 0; try < 60; try++ {
+		a = g.one(&vf.Result{Distribution: map[string]int{}})
+		ok := len(a.H.Val.Votes) >= 2 && a.H.Cons.SubUsers > 0 && a.H.Number%32768 != 0
+		for _, v := range a.H.Val.Votes {
+			if v.Proof.Kind != 0 || int(v.Idx) >= len(a.LB.Vals) || a.LB.Vals[v.Idx].Bls != a.LB.Vals[v.Idx].Key {
+				ok = false
+			}
+		}
+		if ok {
+			break
+		}
+	}
+	g.plain, g.plainAll = false, false
+	a.Comment = "history:1 old validator set, every member votes"
+	// D: the heaviest voter that is not the proposer; its new BLS key: one no member of the set uses
+	di, dw := -1, uint32(0)
+	for i, v := range a.H.Val.Votes {
+		if a.LB.Vals[v.Idx].Key != a.H.Cons.Signer && v.Votes >= dw {
+			di, dw = i, v.Votes
+		}
+	}
+	if di < 0 {
+		di = 0
+	}
+	used := map[int]bool{}
+	for _, v := range a.LB.Vals {
+		used[v.Key], used[v.Bls] = true, true
+	}
+	newBls := 0
+	for used[newBls] {
+		newBls++
+	}
+	clone := func(c Case) Case {
+		d := c
+		d.LB.Vals = append([]ValS{}, c.LB.Vals...)
+		d.CertLB.Vals = append([]ValS{}, c.CertLB.Vals...)
+		d.H.Val.Votes = append([]VoteS{}, c.H.Val.Votes...)
+		d.H.Val.Agg.Parts = append([]PartS{}, c.H.Val.Agg.Parts...)
+		return d
+	}
+	didx := int(a.H.Val.Votes[di].Idx)
+	b := clone(a)
+	b.LB.Vals[didx].Bls = newBls
+	b.Comment = fmt.Sprintf("history:2 validator %d registered again under the same main key with BLS key %d; its share is still made by the old BLS key %d", didx, newBls, a.LB.Vals[didx].Bls)
+	c := clone(b)
+	for i := range c.H.Val.Agg.Parts {
+		if c.H.Val.Agg.Parts[i].Key == a.LB.Vals[didx].Bls {
+			c.H.Val.Agg.Parts[i].Key = newBls
+		}
+	}
+	c.Comment = "history:3 the re-registered validator signs with its new BLS key"
+	_ = r
+	b.Before = []Case{a}
+	c.Before = []Case{a, b}
+	c.Before[1].Before = nil
+	res.Count("history:same_main_key_other_bls_key")
+	return []Case{a, b, c}
+}
